@@ -44,8 +44,11 @@ def emitIdentStd (d : Dialect) (s : Src) : Src := if identBare d s then s else Q
 def emitIdentPatched (d : Dialect) (s : Src) : Src :=
   if identBare d s then s else Model.Lit.sqlQuoteIdent d.ident_quote (Quote.esc d.ident_quote s)
 
-/-- characters of a bare SQL word -/
-def wordRanges : List (Char × Char) := [('a', 'z'), ('A', 'Z'), ('0', '9'), ('_', '_'), ('$', '$')]
+/-- characters of a bare SQL word: it starts with a letter or `_` (a leading `$` is a parameter marker in SQLite and Postgres and
+no identifier for sqlparser's ANSI, MsSql, BigQuery, Postgres parsers) and goes on with letters, digits, `_`, `$` -/
+def wordStartRanges : List (Char × Char) := [('a', 'z'), ('A', 'Z'), ('_', '_')]
+def wordRanges : List (Char × Char) := wordStartRanges ++ [('0', '9'), ('$', '$')]
+def isWordStart (c : Char) : Bool := Gen.Ident.inClass wordStartRanges c
 def isWordChar (c : Char) : Bool := Gen.Ident.inClass wordRanges c
 
 /-- one SQL identifier: quoted by the dialect's quote character (doubling inside), or a bare word -/
@@ -53,7 +56,7 @@ def sqlLexIdent (d : Dialect) : Src → Option (Src × Src)
   | [] => none
   | c :: cs =>
     if c = d.ident_quote then Quote.lexQuoted d.ident_quote (c :: cs)
-    else if isWordChar c then some ((c :: cs).takeWhile isWordChar, (c :: cs).dropWhile isWordChar)
+    else if isWordStart c then some ((c :: cs).takeWhile isWordChar, (c :: cs).dropWhile isWordChar)
     else none
 
 /-! ### generated names -/
